@@ -78,7 +78,7 @@ impl SubCheck for Accept {
         "case = a zone model written by the reference TZif writer (v1/v2/v3, with or without footer, 0-2000 transitions, extreme but legal 64-bit transition times); must be accepted, the structural dump (transition times and type indices, types' offset/dst/abbreviation, footer rule) must equal what was written, heap use bounded, and both lookups must answer everywhere without panicking; non-trivial = at least one transition and a footer, or an extreme transition time"
     }
     fn strategy(&self) -> Option<BoxedStrategy<ZoneFile>> {
-        let extreme = (zone_file(6), proptest::sample::select(vec![i64::MAX, i64::MAX - 1, i64::MIN, i64::MIN + 1, i64::MIN + 86_400, i64::MAX - 86_400, 1i64 << 62, -(1i64 << 62)]), any::<bool>()).prop_map(|(mut f, t, front)| {
+        let extreme = (zone_file(6), proptest::sample::select(vec![i64::MAX, i64::MAX - 1, i64::MIN, i64::MIN + 1, i64::MIN + 86_400, i64::MAX - 86_400, 1i64 << 62, -(1i64 << 62), -(1i64 << 59), -(1i64 << 59) + 1, -(1i64 << 59) - 1, 1i64 << 59, -(1i64 << 31), -(1i64 << 31) - 1, -(1i64 << 32), 1i64 << 31, 1i64 << 32]), any::<bool>()).prop_map(|(mut f, t, front)| {
             // an extreme but legal transition time needs the 64-bit block and no rule evaluation there
             if f.version == Version::V1 { f.version = Version::V2; }
             f.model.footer = None;
@@ -97,7 +97,7 @@ impl SubCheck for Accept {
     fn check(&self, f: &ZoneFile, obs: &mut Obs) -> Result<(), String> {
         let m = &f.model;
         obs.nt_if(!m.transitions.is_empty() && m.footer.is_some(), "transitions_and_footer");
-        let ext = m.transitions.iter().any(|t| t.0.unsigned_abs() > 1 << 61);
+        let ext = m.transitions.iter().any(|t| t.0.unsigned_abs() > 1 << 58);
         obs.nt_if(ext, "extreme_transition_time");
         obs.label(match f.version { Version::V1 => "v1", Version::V2 => "v2", Version::V3 => "v3" });
         obs.label_if(m.transitions.len() > 100, "many_transitions");
